@@ -341,6 +341,13 @@ let check_line (line : string) : unit =
         if get "setup2keeps" <> "1" || get "setup2ok" <> "1" then oracle "setup_keeps" 0;
         if get "setup2recreates" <> "1" then oracle "setup_recreates" 0
       end;
+      (* the same dispatcher on a second world, then on the first again: full dispatches like any other *)
+      if get "TW" <> "" then begin
+        check_trace "TW" 'd' (parse_trace (get "TW")) false;
+        if get "PW" <> "-" || get "setupWok" <> "1" then oracle "unexpected_panic" 0;
+        check_trace "TB" 'd' (parse_trace (get "TB")) false;
+        if get "PB" <> "-" then oracle "unexpected_panic" 0
+      end;
       if param "nest" = "1" then begin
         (* the dispatcher nested as a system in an outer dispatcher: set up, run (= one dispatch), disposed through RunNow *)
         if order "setupN" 'S' <> model_order then disagree "setup_order" 0 (tok_of_ints model_order) (tok_of_ints (order "setupN" 'S'));
